@@ -55,6 +55,9 @@ class Scratch:
                             REPO + "/", self.repo + "/"], capture_output=True, text=True)
         if r.returncode != 0:
             raise HarnessError("rsync of /repo failed: " + r.stderr)
+        if os.environ.get("VERIF_COPIED_MARK"):
+            # tells bin/seedsweep.py that the working tree has been copied (nothing reads /repo after this point)
+            open(os.environ["VERIF_COPIED_MARK"], "w").write("copied\n")
         shutil.copytree(HARNESS, self.harness)
         sums = set()
         for p in ["go.sum", "go.work.sum", "src/free5gclib/go.sum", "src/stgutg/go.sum", "src/tglib/go.sum"]:
